@@ -1,10 +1,11 @@
 (* C13 -- the model of Ssp.v with the fuel of updateTree's label-correcting loop (cpp:483) as a
    parameter.  Definitions only; proofs in SspTree.v / SspOpt.v, statements in Properties_C13.v.
 
-   Ssp.v gives the `while (true)` loop of updateTree() the fuel  tree_fuel n = n^3 + 2n + 1, a
-   modelling bound that no proof supports (the loop is a label-correcting search that picks the
-   marked sink of smallest sendingCost_; moving costs can be negative, and for such searches no
-   polynomial bound on the number of rounds is known).  Here every definition that (transitively)
+   Ssp.v first gave the `while (true)` loop of updateTree() the fuel n^3 + 2n + 1 ([cubic_fuel] below), a
+   modelling bound that turned out to be insufficient (SspFuelCex.v: the loop is a label-correcting
+   search that picks the marked sink of smallest sendingCost_; moving costs can be negative, and such
+   searches need exponentially many rounds in the worst case); it now uses the proved budget
+   [big_fuel] (tree_fuel = big_fuel, by computation).  Here every definition that (transitively)
    calls update_tree is repeated verbatim with the fuel [tf (length rm)] instead of
    [tree_fuel (length rm)]; everything else is Ssp.v's.  [sspF tree_fuel = ssp] holds by
    computation (ssp_is_sspF in SspOpt.v).  "The C++ loop terminates" is then the statement that some
@@ -63,3 +64,6 @@ Definition sspF (tf : nat -> positive) (pb : Pb) : res (list (list Z)) := do s <
 (* a fuel that provably suffices for every call of updateTree on n sinks: each round lowers
    2 * (sum of the labels) + (number of marked sinks), which starts at most at n * (2 * INT_MAX + 1) *)
 Definition big_fuel (n : nat) : positive := Z.to_pos (Z.of_nat n * (2 * INT_MAX + 1) + 1).
+
+(* the budget Ssp.v used before: refuted by SspFuelCex.v *)
+Definition cubic_fuel (n : nat) : positive := Pos.of_succ_nat (n * n * n + 2 * n).
